@@ -93,6 +93,12 @@ def call_sets(logic, modal, quantified, classical, vals, rng, n):
         sets.append([{'op': 'access', 'w': 3, 'w2': 4, 's': [], 'v': ''}, {'op': 'access', 'w': 1, 'w2': 2, 's': [], 'v': ''},
                      {'op': 'access', 'w': 0, 'w2': 1, 's': [], 'v': ''}, {'op': 'access', 'w': 2, 'w2': 3, 's': [], 'v': ''},
                      {'op': 'pred', 'w': 4, 'w2': -1, 's': P(F1, a), 'v': vals[0]}])
+        # world numbers beyond the small-int range in which hash order and numeric order coincide
+        sets.append([{'op': 'access', 'w': 1, 'w2': 9, 's': [], 'v': ''}, {'op': 'access', 'w': 1, 'w2': 3, 's': [], 'v': ''},
+                     {'op': 'access', 'w': 7, 'w2': 8, 's': [], 'v': ''}, {'op': 'access', 'w': 7, 'w2': 7, 's': [], 'v': ''},
+                     {'op': 'access', 'w': 8, 'w2': 16, 's': [], 'v': ''}, {'op': 'access', 'w': 8, 'w2': 1, 's': [], 'v': ''},
+                     {'op': 'atomic', 'w': 9, 'w2': -1, 's': A(0), 'v': T},
+                     {'op': 'atomic', 'w': 1, 'w2': -1, 's': A(0), 'v': vals[0]}])
         if classical:
             # identity facts that differ between worlds: congruence is per world
             sets.append([{'op': 'pred', 'w': 1, 'w2': -1, 's': P(F1, a), 'v': T},
